@@ -42,7 +42,7 @@ ASSUMPTIONS = [
     "one representative shape tuple per class (D=2, R<=2) and one value index + the VERIF_SEED-indexed one; program depth bounded (see coverage.bounds)",
 ]
 BOUNDS = {
-    "quick": dict(D=2, depth_all_readouts=0, depth_default_readout=1, depth_reduced=2, hetero_links=["Exp", "CoshM1", "Heaviside"], vi=[0]),
+    "quick": dict(D=2, depth_all_readouts=0, depth_default_readout=1, depth_reduced=2, hetero_links=["Exp", "CoshM1", "Heaviside", "ReLU"], vi=[0]),
     "thorough": dict(D=2, depth_all_readouts=1, depth_default_readout=2, depth_reduced=3, hetero_links=["Exp", "CoshM1", "Heaviside", "ReLU"], vi=[0, 100]),
 }
 BUDGET = {"quick": 1200, "thorough": 10800}
